@@ -37,6 +37,8 @@ func checkC20(r *Run) propMeta {
 	checkPerGraphResolver(r, p)
 	checkStrictDocumentDecoding(r, p, nil, cg)
 	checkManifestUniqueEntries(r, p)
+	checkVerificationLoopsTotal(r, p)
+	checkEOFGateCountsBytes(r, p)
 	r.Floor("C20-R7-manifest-unique-entries", 2)
 	r.Floor("C20-R1-verify-before-mutate", 6)
 	r.Floor("C20-R2-path-taint", 3)
@@ -1167,6 +1169,7 @@ func checkPerGraphResolver(r *Run, p *packages.Package) {
 				n++
 				construct := funcDeclName(fd) + ":newNodeIDResolver"
 				perGraph := ""
+				conditional := ""
 				// a parameter of type GraphManifest: the function runs for one graph
 				if fd.Type.Params != nil {
 					for _, pl := range fd.Type.Params.List {
@@ -1178,11 +1181,19 @@ func checkPerGraphResolver(r *Run, p *packages.Package) {
 				for _, anc := range stack {
 					if rs, ok := anc.(*ast.RangeStmt); ok && call.Pos() >= rs.Body.Pos() && call.End() <= rs.Body.End() {
 						if sel, ok := ast.Unparen(rs.X).(*ast.SelectorExpr); ok && sel.Sel.Name == "Graphs" {
-							perGraph = "constructed inside the loop over " + exprString(r.Fset, rs.X)
+							// … on every iteration: a construction under a condition keeps the previous graph's index
+							// for the graphs that do not meet it
+							if conds := pathConditions(rs.Body, call); len(conds) > 0 {
+								conditional = exprString(r.Fset, conds[0].Expr)
+							} else {
+								perGraph = "constructed on every iteration of the loop over " + exprString(r.Fset, rs.X)
+							}
 						}
 					}
 				}
-				if perGraph != "" {
+				if conditional != "" {
+					r.Fail("C20-R1-verify-before-mutate", construct, call.Pos(), "the source-ID index is rebuilt only when `%s`: a graph that does not meet the condition is checked against the previous graph's node IDs, so the preflight accepts an edge fragment that points into another graph and the load fails only after nodes and relationships were written", conditional)
+				} else if perGraph != "" {
 					r.Pass("C20-R1-verify-before-mutate", construct, call.Pos(), "the source-ID index is per graph: %s", perGraph)
 				} else {
 					r.Fail("C20-R1-verify-before-mutate", construct, call.Pos(), "the source-ID index is constructed outside the per-graph scope: IDs of earlier graphs stay resolvable, so the preflight accepts an edge that points into another graph and the dump is rejected only after the load pass has written nodes and relationships")
